@@ -14,7 +14,9 @@ import (
 	ammtypes "github.com/elys-network/elys/x/amm/types"
 	lpkeeper "github.com/elys-network/elys/x/leveragelp/keeper"
 	lptypes "github.com/elys-network/elys/x/leveragelp/types"
+	mctypes "github.com/elys-network/elys/x/masterchef/types"
 	oracletypes "github.com/elys-network/elys/x/oracle/types"
+	tokenomicstypes "github.com/elys-network/elys/x/tokenomics/types"
 	ptypes "github.com/elys-network/elys/x/parameter/types"
 )
 
@@ -34,15 +36,20 @@ type PoolSpec struct {
 
 // WorldSpec = Scenario + setup prefix, the full deterministic recipe of a world.
 type WorldSpec struct {
-	Scenario Scenario          `json:"scenario"`
-	Prices   map[string]string `json:"prices"` // display -> price
-	Pools    []PoolSpec        `json:"pools"`
+	Scenario     Scenario          `json:"scenario"`
+	Prices       map[string]string `json:"prices"` // display -> price
+	Pools        []PoolSpec        `json:"pools"`
+	EdenPerYear  uint64            `json:"eden_per_year"`  // >0: time-based inflation (LM rewards) + eden enabled on all pools
+	RewardDenoms []string          `json:"reward_denoms"` // supported external-incentive denoms
+	GovMsgs      []string          `json:"gov_msgs,omitempty"` // interface-JSON msgs applied with gov authority at the end of setup
 }
 
 func DefaultWorldSpec() WorldSpec {
 	return WorldSpec{
 		Scenario: DefaultScenario(),
 		Prices:   map[string]string{"USDC": "1.0", "USDT": "1.0", "ATOM": "5.0", "ELYS": "3.0"},
+		EdenPerYear:  6_307_200_000_000,
+		RewardDenoms: []string{"uusdt", ptypes.ATOM},
 		Pools: []PoolSpec{
 			{UseOracle: true, Denoms: [2]string{ptypes.ATOM, ptypes.BaseCurrency}, Amounts: [2]string{"200000000000", "1000000000000"}, Weights: [2]int64{50, 50}, SwapFee: "0.001", Leverage: true},
 			{UseOracle: false, Denoms: [2]string{ptypes.Elys, ptypes.BaseCurrency}, Amounts: [2]string{"300000000000", "900000000000"}, Weights: [2]int64{50, 50}, SwapFee: "0.003"},
@@ -98,6 +105,27 @@ func BuildWorld(spec WorldSpec) (*World, error) {
 			if err != nil {
 				return nil, fmt.Errorf("leveragelp add pool %d: %w", i, err)
 			}
+		}
+	}
+	if spec.EdenPerYear > 0 {
+		app.TokenomicsKeeper.SetTimeBasedInflation(ctx, tokenomicstypes.TimeBasedInflation{
+			StartBlockHeight: 1, EndBlockHeight: 100_000_000, Description: "verif", Authority: GovAddr(),
+			Inflation: &tokenomicstypes.InflationEntry{LmRewards: spec.EdenPerYear, IcsStakingRewards: spec.EdenPerYear / 2, CommunityFund: 0, StrategicReserve: 0, TeamTokensVested: 0},
+		})
+		for _, p := range app.AmmKeeper.GetAllPool(ctx) {
+			if err := w.ExecGov(&mctypes.MsgTogglePoolEdenRewards{Authority: GovAddr(), PoolId: p.PoolId, Enable: true}); err != nil {
+				return nil, err
+			}
+		}
+	}
+	for _, d := range spec.RewardDenoms {
+		if err := w.ExecGov(&mctypes.MsgAddExternalRewardDenom{Authority: GovAddr(), RewardDenom: d, MinAmount: sdkmath.NewInt(1), Supported: true}); err != nil {
+			return nil, err
+		}
+	}
+	for _, js := range spec.GovMsgs {
+		if err := ApplyEnv(w, EnvAction{Kind: "gov_msg", Args: map[string]string{"msg": js}}); err != nil {
+			return nil, err
 		}
 	}
 	w.EndBlock(5e9)
